@@ -397,10 +397,10 @@ func (l layout) render(blocks []blockAST, split, mode int) (main string, files m
 				case 5: // likewise a zero-byte import file
 					files["imp0"] = ""
 					dl = append([]string{"import" + l.sep + "imp0"}, dl...)
-				case 6: // a glob over three files: the directive in the middle one, a comment-only file before it, an empty one after it
+				case 6: // a glob over three files: the directive in the middle one, a comment-only file before it, after it a file that imports the first one again
 					files["glob-a"] = "# only a comment\n"
 					files["glob-b"] = strings.Join(dl, "\n") + "\n"
-					files["glob-c"] = "\n"
+					files["glob-c"] = "import glob-a\n" // (a later match importing an earlier one again is no cycle)
 					dl = []string{"import" + l.sep + "glob-*"}
 				case 7: // the same with the directive in the last file
 					files["glob-a"] = "# only a comment\n"
